@@ -181,7 +181,8 @@ def ap_validate_doscmint():
                   C("fit", "outputs_fit(*tx)"),
                   C("pow_total", "dosc_pow_total(*this, relevant_coins@, *tx)", envelope_of="F-C09-melpow"),
                   C("reward_fits", "dosc_reward_fits(*this)", note="C09 envelope: inflated reward < 2^128")],
-        ensures=[C("c18", "res is Ok ==> doscmint_ok(*this, relevant_coins@, *tx, res->Ok_0)", "C18", "C01"),
+        ensures=[C("c18", "res is Ok ==> doscmint_ok(*this, relevant_coins@, *tx, res->Ok_0)", "C18", "C01", "C03",
+                   note="C03: the reward is measured against the PREVIOUS header's speed (doscmint_ok), not against anything an earlier transaction of the block has changed: seed C03f took `this.dosc_speed` and made one-at-a-time application order-dependent"),
                  C("err", "res is Err ==> res->Err_0 is InvalidMelPoW || res->Err_0 is MalformedTx || res->Err_0 is NonexistentCoin", "C18", char=True)])
 
 # ---- containers at the abstract level
